@@ -383,6 +383,7 @@ static Plan gen_c10(uint64_t seed, int64_t index, bool thorough)
     sh.p_skip_ws_off = 5;
     sh.buffers = { BUF_SIM, BUF_STRING, BUF_VIEW, BUF_CSTRING };
     sh.streams = { STR_SIM, STR_OSS };
+    sh.p_verbose = 12;        // the positions the functors see must not depend on the trace being written (S122: the lexer advanced the parser's source point only when verbose)
     PlanOp op = make_sentence_op(rng, key, sh);
     std::string mode;
     uint64_t k = rng.below(100);
@@ -499,7 +500,9 @@ static std::vector<Violation> case_c10(const Plan& p, CaseCtx& cx)
         }
     }
     if (cx.st) { cx.st->add("functor_calls_judged", int64_t(judged)); if (judged < n) cx.st->add("unjudged.structure_differs"); }
-    // positions in error messages
+    // positions in error messages (a verbose call interleaves them with the trace, which is C16's to judge: only the
+    // source points handed to the functors are judged for such a call)
+    if (o.op.verbose) { if (cx.st) cx.st->add("probe.verbose_call_term_positions_judged"); return vs; }
     std::string written = o.op.stream == STR_OSS ? o.out.oss_text : o.rec.wrote;
     std::vector<std::string> lines;
     {
